@@ -157,9 +157,12 @@ def build(flavour, verbose=False):
         info["cached"] = True
         return binp, info
     t0 = time.time()
-    # drop older builds of this flavour (disk is limited)
-    for old in glob.glob(os.path.join(BUILD, flavour + "-*")):
-        if old != d:
+    # drop older builds of this flavour (disk is limited) -- but never one that may still be in use by
+    # another check running at the same time (e.g. against a scratch tree): keep the 4 newest and
+    # everything younger than two hours
+    olds = sorted((o for o in glob.glob(os.path.join(BUILD, flavour + "-*")) if o != d), key=lambda o: os.path.getmtime(o), reverse=True)
+    for old in olds[4:]:
+        if time.time() - os.path.getmtime(old) > 7200:
             shutil.rmtree(old, ignore_errors=True)
     os.makedirs(d, exist_ok=True)
     jobs = []
